@@ -160,3 +160,159 @@ def p3(prog):
     if not ok:
         findings.append({"key": "P3:overload_pred::result", "where": g["l"], "msg": "a predicate word applied to unsupported operand types must print a diagnostic and answer `fail` (neither ?x nor !x holds)", "detail": None})
     return inst, findings
+
+
+# ---------------------------------------------------------------------------
+# P2b: the profile invariant, by abstract evaluation of stack's own member functions
+
+class _TypeObj:
+    def __init__(self, code):
+        self._code = code
+
+
+class _Val:
+    def __init__(self, code):
+        self.code = code
+
+    def __repr__(self):
+        return "T%d" % self.code
+
+
+class _It:
+    """iterator over a _Vec: position counted from the front (reverse=False) or from the back (reverse=True)"""
+    def __init__(self, vec, pos, reverse=False):
+        self.vec, self.pos, self.reverse = vec, pos, reverse
+
+    def arith(self, op, n):
+        return _It(self.vec, self.pos + (n if op == "+" else -n), self.reverse)
+
+    def deref(self):
+        i = (len(self.vec.items) - 1 - self.pos) if self.reverse else self.pos
+        if not (0 <= i < len(self.vec.items)):
+            raise Broken("abstract evaluation dereferences an iterator outside the vector (index %d of %d)" % (i, len(self.vec.items)))
+        return self.vec.items[i]
+
+
+class _Vec:
+    def __init__(self):
+        self.items = []
+
+
+class _Stack:
+    def __init__(self):
+        self.m_values = _Vec()
+        self.m_profile = 0
+
+    def on_store(self, name, val):
+        return val & 0xffffffff if name == "m_profile" else val
+
+
+def p2b(prog, tier="quick"):
+    from absint import Evaluator, Thrown
+    inst, findings = [], []
+    meth = {}
+    for n in ("push", "pop", "drop", "need"):
+        fs = [f for f in prog.funcs.values() if f.get("cls") == "stack" and f["n"] == n]
+        if len(fs) != 1:
+            raise Broken("anchor stack::%s vanished" % n)
+        meth[n] = fs[0]
+    gets = [f for f in prog.funcs.values() if f.get("cls") == "stack" and f["n"] == "get" and not f.get("const")]
+    if len(gets) != 1:
+        raise Broken("anchor stack::get (non-const) vanished")
+    meth["get"] = gets[0]
+    w = prog.globals.get("selector::W")
+    W = (w.get("init") or {}).get("iv") if w else None
+    if W is None:
+        raise Broken("selector::W is not a compile-time constant")
+    hooks = {
+        "method:size": lambda ev, o, a: len(o.items),
+        "method:back": lambda ev, o, a: o.items[-1] if o.items else (_ for _ in ()).throw(Broken("back() on an empty vector")),
+        "method:pop_back": lambda ev, o, a: o.items.pop(),
+        "method:push_back": lambda ev, o, a: o.items.append(a[0]),
+        "method:end": lambda ev, o, a: _It(o, len(o.items)),
+        "method:begin": lambda ev, o, a: _It(o, 0),
+        "method:rbegin": lambda ev, o, a: _It(o, 0, True),
+        "method:erase": lambda ev, o, a: o.items.__delitem__(slice(a[0].pos, a[1].pos)),
+        "method:operator*": lambda ev, o, a: o.deref() if isinstance(o, _It) else o,
+        "method:operator->": lambda ev, o, a: o.deref() if isinstance(o, _It) else o,
+        "method:operator-": lambda ev, o, a: o.arith("-", a[0]),
+        "method:operator+": lambda ev, o, a: o.arith("+", a[0]),
+        "method:get": lambda ev, o, a: o,
+        "method:release": lambda ev, o, a: o,
+        "zw_value::get_type": lambda ev, o, a: _TypeObj(o.code),
+        "value_type::code": lambda ev, o, a: o._code,
+        "stack::need": lambda ev, o, a: ev.call(meth["need"], o, a),
+        "stack::get": lambda ev, o, a: ev.call(meth["get"], o, a),
+        "stack::pop": lambda ev, o, a: ev.call(meth["pop"], o, a),
+        "ctor:std::runtime_error": lambda ev, o, a: "exc",
+    }
+    ev = Evaluator(hooks, {"selector::W": W}, ptr_lt=True)
+
+    def expect(st):
+        v = 0
+        for d in range(min(W, len(st.m_values.items))):
+            v |= st.m_values.items[-1 - d].code << (8 * d)
+        return v & 0xffffffff
+
+    def clone(st):
+        c = _Stack()
+        c.m_values.items = list(st.m_values.items)
+        c.m_profile = st.m_profile
+        return c
+    codes = (1, 2, 3) if tier == "thorough" else (1, 2)
+    maxd = W + 3 if tier == "thorough" else W + 2
+    n_eval = 0
+    bad = None
+
+    def check(st, what, trace):
+        nonlocal bad
+        if bad is None and st.m_profile != expect(st):
+            bad = "%s: after %s the stack %s has profile %#x, expected %#x" % (what, " ".join(trace), st.m_values.items, st.m_profile, expect(st))
+    # all stacks built by pushes
+    frontier = [(_Stack(), [])]
+    allst = []
+    while frontier:
+        st, trace = frontier.pop()
+        allst.append((st, trace))
+        if len(st.m_values.items) >= maxd:
+            continue
+        for c in codes:
+            s2 = clone(st)
+            ev.call(meth["push"], s2, [_Val(c)])
+            n_eval += 1
+            check(s2, "push", trace + ["push(T%d)" % c])
+            frontier.append((s2, trace + ["push(T%d)" % c]))
+    for st, trace in allst:
+        depth = len(st.m_values.items)
+        # runs of pops
+        s2 = clone(st)
+        t2 = list(trace)
+        for i in range(depth):
+            ev.call(meth["pop"], s2, [])
+            n_eval += 1
+            t2 = t2 + ["pop"]
+            check(s2, "pop", t2)
+        for n in range(depth + 1):
+            s3 = clone(st)
+            ev.call(meth["drop"], s3, [n])
+            n_eval += 1
+            check(s3, "drop", trace + ["drop(%d)" % n])
+            if depth - n >= 1:
+                ev.call(meth["pop"], s3, [])
+                check(s3, "pop", trace + ["drop(%d)" % n, "pop"])
+    # precondition failures throw
+    try:
+        ev.call(meth["pop"], _Stack(), [])
+        underflow_throws = False
+    except Thrown:
+        underflow_throws = True
+    inst.append(("P2b:profile-invariant", {"stacks": len(allst), "type_codes": len(codes), "max_depth": maxd,
+                                            "interpreted_calls": n_eval, "W": W}))
+    if bad:
+        findings.append({"key": "P2b:profile-invariant", "where": "libzwerg/stack.hh",
+                         "msg": "the cached type profile no longer equals the types of the top %d values: %s; overload dispatch then depends on how the stack was built" % (W, bad),
+                         "detail": None})
+    inst.append(("P2b:underflow", {"pop_on_empty_throws": underflow_throws}))
+    if not underflow_throws:
+        findings.append({"key": "P2b:underflow", "where": "libzwerg/stack.hh", "msg": "pop on an empty stack no longer raises an error", "detail": None})
+    return inst, findings
